@@ -149,3 +149,34 @@ class Lemmas:
         """REP(X, i+1) == REP(X, i) ++ X for i >= 0; REP(X, 0) == empty."""
         return [z3.Implies(i >= 0, REP(X, i + 1) == z3.Concat(REP(X, i), X)), REP(X, z3.IntVal(0)) == z3.Empty(SC),
                 z3.Implies(i <= 0, REP(X, i) == z3.Empty(SC))]
+
+
+# ------------------------------------------------------------------ rendering lines and the ghost terminal (C02)
+LINELEN = z3.Function("LINELEN", I, I)              # number of cells of the line with this identity
+CLIPID = z3.Function("CLIPID", I, I, I)             # identity of line[:w]
+_R = z3.Datatype("Row")
+_R.declare("shows", ("line", I))                    # the row displays exactly this line, blank to the right of it
+_R.declare("blank")
+_R.declare("junk")
+_R.declare("partial", ("pline", I))                 # the line was written from column 0; the rest of the row is old content
+Row = _R.create()
+
+
+def line_facts(l, w=None):
+    fs = [LINELEN(l) >= 0]
+    if w is not None:
+        c = CLIPID(l, w)
+        fs += [LINELEN(c) == z3.If(LINELEN(l) <= w, LINELEN(l), z3.If(w >= 0, w, 0)), z3.Implies(LINELEN(l) <= w, c == l)]
+    return fs
+
+
+def displays(row, v, w):
+    """the screen row shows the cached/array value v (-1 = None = a blank row), clipped to the width w"""
+    c = CLIPID(v, w)
+    return z3.If(v == -1, row == Row.blank, z3.Or(row == Row.shows(c), z3.And(row == Row.blank, LINELEN(c) == 0)))
+
+
+_O = z3.Datatype("OptInt")
+_O.declare("none")
+_O.declare("some", ("optv", I))
+OptInt = _O.create()
